@@ -357,8 +357,8 @@ class World(WorldBase):
                     continue
                 self.ctx.probe("reissued_after_" + old.get("why", "rewrite"))
                 return self.stamp(op, rng)
-        if rng.random() < sw.get("p_edit", 0.0):
-            op = self.gen_edit(rng)
+        if rng.random() < sw.get("p_edit", 0.0) * (3.0 if sw.get("huge") else 1.0):
+            op = self.gen_file_edit(rng) if rng.random() < (0.7 if sw.get("huge") else 0.3) else self.gen_edit(rng)
             if op is not None:
                 return self.stamp(op, rng)
         for _try in range(60):
@@ -439,6 +439,77 @@ class World(WorldBase):
             self.reissue.append(dict(user, why="edit"))
         return {"op": "edit", "target": name, "how": rng.randrange(3), "seed": rng.randrange(1 << 30)}
 
+    def gen_file_edit(self, rng):
+        """Another process (an editor, rsync -t, a re-run that differs in one number) changes one
+        token near the end of a file the library wrote or reads - same length, optionally the
+        same modification time - and the calls that read the file are made again."""
+        cand = sorted(p for p, f in self.files.items() if f["kind"] in ("nl", "weights", "dump") and self.readers_of.get(p))
+        if not cand:
+            cand = sorted(p for p, f in self.files.items() if f["kind"] in ("nl", "weights", "dump"))
+        if not cand:
+            return None
+        p = rng.choice(cand)
+        for r in self.readers_of.get(p, []):
+            if "obj" not in r:
+                self.reissue.append(dict(r, why="file_edit"))
+        return {"op": "file_edit", "path": p, "seed": rng.randrange(1 << 30), "keep_mtime": rng.random() < 0.5,
+                "reads": {p: self.files[p]["src"]}}
+
+    def do_file_edit(self, op):
+        p = op["path"]
+        f = self.files.get(p)
+        if f is None or f["src"] != op["reads"][p] or not os.path.exists(p):
+            raise Refuse("file is not the one this edit was generated for")
+        rng = np.random.default_rng(op["seed"])
+        st = os.stat(p)
+        with simio.real_open(p, "r", encoding="utf-8", newline="") as fh:
+            lines = fh.read().split("\n")
+        first_data = 9 if f["kind"] == "dump" else 1
+        import re
+        data = [i for i, ln in enumerate(lines) if i >= first_data and ln.strip()[:1].isdigit() and len(ln.split()) >= 3]
+        if not data:
+            self.ctx.probe("file_edit_found_nothing")
+            return f"{p} unchanged"
+        tail = data[-max(1, len(data) // 20):]           # the last rows of the last frame
+        done = False
+        for _try in range(30):
+            i = int(rng.choice(tail))
+            toks = [(m.start(), m.group()) for m in re.finditer(r"\S+", lines[i])]
+            idx = [k for k, (_a, t) in enumerate(toks) if k >= 2 and any(c.isdigit() for c in t)]
+            if not idx:
+                continue
+            k = int(rng.choice(idx))
+            start, tok = toks[k]
+            j = [q for q, c in enumerate(tok) if c.isdigit()][-1]      # the last digit: the smallest change of value
+            new = str((int(tok[j]) + int(rng.integers(1, 9))) % 10)
+            if f["kind"] == "nl":
+                # a neighbour id: stay a valid id of the same width, other than the row's own
+                n = f.get("N", 0)
+                cands = [c for c in "0123456789" if c != tok[j] and (len(tok) > 1 or c != "0")
+                         and 1 <= int(tok[:j] + c + tok[j + 1:]) <= n and tok[:j] + c + tok[j + 1:] != toks[0][1]]
+                if not cands:
+                    continue
+                new = str(rng.choice(cands))
+            if new == tok[j]:
+                continue
+            lines[i] = lines[i][:start + j] + new + lines[i][start + j + 1:]
+            done = True
+            break
+        if not done:
+            self.ctx.probe("file_edit_found_nothing")
+            return f"{p} unchanged"
+        with simio.real_open(p, "w", encoding="utf-8", newline="") as fh:
+            fh.write("\n".join(lines))
+        if os.stat(p).st_size != st.st_size:
+            raise HarnessError("file_edit changed the file size")
+        if op.get("keep_mtime"):
+            os.utime(p, ns=(st.st_atime_ns, st.st_mtime_ns))
+        self.history[op["id"]] = op
+        f["src"] = op["id"]
+        self.ctx.probe("file_edited_in_place_same_size")
+        self.ctx.probe(f"file_edit:{f['kind']}")
+        return f"{p} line {i}"
+
     def do_edit(self, op):
         e = self.pool.get(op["target"])
         if e is None:
@@ -502,6 +573,8 @@ class World(WorldBase):
             return self.do_call(op)
         if k == "edit":
             return self.do_edit(op)
+        if k == "file_edit":
+            return self.do_file_edit(op)
         raise HarnessError(f"unknown op {k}")
 
     def do_mk_snaps(self, op):
